@@ -35,6 +35,16 @@ var corpus = []string{
 	// reserved-peer filter, limit 0
 	"S:2:2:2:2 i0.1.5000.20338.1.ok;i1.2.5001.20338.2.ok;i1.2.5001.20338.2.ok;o2.1.20338.20338.3.ok;o3.2.20339.20338.4.ok",
 	"S:0:1:0:* i0.1.5000.20338.1.ok;o1.1.20338.20338.2.ok",
+	// duplicate concurrent dials to one address: the refused duplicate must not touch the in-flight dial's reservation,
+	// so a third dial to another address still finds the slot taken (seeded regression: releaseSlot deferred too early)
+	"S:1:1:1:* o0.1.20338.20338.1.ok;o1.1.20338.20338.2.ok;o2.2.20338.20338.3.ok;o0.1.20338.20338.1.ok;o2.2.20338.20338.3.ok",
+	"S:2:2:2:* o0.1.20338.20338.1.ok;o1.1.20338.20338.2.ok;o1.1.20338.20338.2.ok;o2.2.20338.20338.3.ok;o3.3.20338.20338.4.ok;o0.1.20338.20338.1.ok;o2.2.20338.20338.3.ok;o3.3.20338.20338.4.ok",
+	"S:1:1:1:* o0.1.20338.20338.1.hf;o1.1.20338.20338.2.ok;o2.2.20338.20338.3.ok;o0.1.20338.20338.1.hf;o2.2.20338.20338.3.ok;o2.2.20338.20338.3.ok",
+	// stale close: A connects and closes, B reconnects from the same address, A's Conn is closed AGAIN, then C connects
+	"S:1:1:1:* i0.1.5000.20338.1.ok;i0.1.5000.20338.1.ok;i0.1.5000.20338.1.ok;i1.1.5000.20338.2.ok;i1.1.5000.20338.2.ok;i0.1.5000.20338.1.ok;i2.1.5001.20338.3.ok;i2.1.5001.20338.3.ok",
+	"S:1:1:1:* o0.1.20338.20338.1.ok;o0.1.20338.20338.1.ok;o0.1.20338.20338.1.ok;o1.1.20338.20338.2.ok;o1.1.20338.20338.2.ok;o0.1.20338.20338.1.ok;o2.2.20338.20338.3.ok;o2.2.20338.20338.3.ok",
+	// repeated close without a reconnect (only the Fatalf branch of removePeer is visible)
+	"S:2:2:2:* i0.1.5000.20338.1.ok;i0.1.5000.20338.1.ok;i0.1.5000.20338.1.ok;i0.1.5000.20338.1.ok;i0.1.5000.20338.1.ok",
 }
 
 type gthread struct {
@@ -65,7 +75,10 @@ func gen(r *hx.Rand, tier string, i int) string {
 		}
 		rsv = strings.Join(l, ",")
 	}
-	mode := r.Intn(10) // 0-3 racy (checks first), 4-7 random interleaving, 8-9 sequential
+	mode := r.Intn(13) // 0-3 racy (checks first), 4-7 random interleaving, 8-9 sequential, 10-11 stale close, 12 duplicate dials
+	if mode >= 10 {
+		return fmt.Sprintf("S:%d:%d:%d:%s %s", maxIn, maxIp, maxOut, rsv, genPattern(r, mode, nip))
+	}
 	sequential := mode >= 8
 	n := 2 + r.Intn(6)
 	var ths []gthread
@@ -153,4 +166,79 @@ func interleave(r *hx.Rand, ths []gthread, left []int) []string {
 		left[k]--
 		ops = append(ops, ths[k].desc)
 	}
+}
+
+// genPattern builds the two scripted shapes and lets a few random connections run around them.
+//
+//	stale close (mode 10-11): A connects and closes; B reconnects from the SAME address (or A's close is repeated without
+//	    a reconnect); A's stale Conn handle is closed again; further connections C, D test whether a slot was freed
+//	duplicate dials (mode 12): A and B dial the same address while A is in flight (B is refused by `connecting`), a third
+//	    dial C to another address competes for the slot that A has reserved; A completes (or fails) afterwards
+func genPattern(r *hx.Rand, mode int, nip int) string {
+	fates := func() string {
+		switch x := r.Intn(100); {
+		case x < 8:
+			return "hf"
+		case x < 12:
+			return "df"
+		}
+		return "ok"
+	}
+	var ops []string
+	if mode == 12 {
+		ip, port := 1+r.Intn(nip), 20338+r.Intn(2)
+		a := fmt.Sprintf("o0.%d.%d.20338.1.%s", ip, port, fates())
+		b := fmt.Sprintf("o1.%d.%d.20338.%d.%s", ip, port, 1+r.Intn(2), fates())
+		c := fmt.Sprintf("o2.%d.%d.20338.3.%s", 1+r.Intn(nip), 20340+r.Intn(2), fates())
+		d := fmt.Sprintf("o3.%d.%d.20338.4.ok", 1+r.Intn(nip), 20342)
+		ops = []string{a, b}
+		tail := []string{c, c, a, b, d, d, a, c, b}
+		if r.Chance(50) {
+			tail = []string{c, a, c, d, b, b, d, a, c}
+		}
+		for _, o := range tail {
+			if r.Chance(85) {
+				ops = append(ops, o)
+			}
+		}
+		return strings.Join(ops, ";")
+	}
+	dir := "i"
+	if r.Chance(40) {
+		dir = "o"
+	}
+	ip := 1 + r.Intn(nip)
+	port := 5000
+	if dir == "o" {
+		port = 20338
+	}
+	mk := func(n, ip, port, pid int) string {
+		return fmt.Sprintf("%s%d.%d.%d.%d.%d.ok", dir, n, ip, port, 20338+r.Intn(2), pid)
+	}
+	samePid := r.Chance(30)
+	a := mk(0, ip, port, 1)
+	pidB := 2
+	if samePid {
+		pidB = 1
+	}
+	b := mk(1, ip, port, pidB) // reconnect from the same remote address
+	c := mk(2, 1+r.Intn(nip), port+1, 3)
+	d := mk(3, 1+r.Intn(nip), port+2, 4)
+	ops = []string{a, a, a}
+	if r.Chance(80) {
+		ops = append(ops, b, b)
+	}
+	if r.Chance(25) {
+		ops = append(ops, c, c)
+	}
+	ops = append(ops, a) // the stale close
+	if r.Chance(20) {
+		ops = append(ops, a)
+	}
+	for _, o := range []string{c, c, d, d, b, c, d} {
+		if r.Chance(75) {
+			ops = append(ops, o)
+		}
+	}
+	return strings.Join(ops, ";")
 }
